@@ -33,6 +33,13 @@ fn scenario(cc: &Covercrypt) -> (MasterSecretKey, Vec<UserSecretKey>) {
         cc.refresh_usk(&mut msk, &mut u, true).unwrap();
         keys.push(u.clone());
         if i % 3 == 0 { cc.rekey(&mut msk, &ap("*")).unwrap(); cc.refresh_usk(&mut msk, &mut u, true).unwrap(); keys.push(u.clone()); }
+        // versions refreshed WITHOUT the old secrets (after a further rekey), and refreshed once more
+        if i % 2 == 1 || i == 0 {
+            let mut v = u.clone();
+            cc.rekey(&mut msk, &ap(pol)).unwrap();
+            cc.refresh_usk(&mut msk, &mut v, false).unwrap(); keys.push(v.clone());
+            if i == 1 && cc.refresh_usk(&mut msk, &mut v, true).is_ok() { keys.push(v.clone()); }
+        }
     }
     (msk, keys)
 }
